@@ -28,7 +28,7 @@ def run(ctx):
     if not (can_run and ok_d):
         common.broken_without_input(ctx, "build", (ctx.notes[-1] if ctx.notes else "") + log_d)
         return
-    k = 4 if ctx.thorough() else 1
+    k = ctx.scale(4)
     rng = ctx.rng
     stores = generic.stores_for(ctx, dict(conforming=20, injected=60, flow=200, random=30, handlers=10, mutated=30))
     for _ in range(200 * k):
